@@ -6,7 +6,7 @@ for line in open(os.path.join(HERE, "seeded", "RESULTS.tsv")):
     parts = line.rstrip("\n").split("\t")
     if len(parts) >= 2 and re.match(r"C\d+-\d+$", parts[0]):
         rows[parts[0]] = parts
-out = ["__N__ changes written by independent sub-agents in two batches (each given only the property text and a scratch worktree), each confirmed by me before",
+out = ["__N__ changes written by independent sub-agents in four batches (each given only the property text and a scratch worktree), each confirmed by me before",
        "it was kept: the patch applies, the package imports, the 51 baseline tests pass with it, its demonstration fails with it and passes",
        "without it (`seeded/<id>/meta.json`). `tools_seed_all.sh` applies each to `/repo`, runs the check of its property (quick tier, seed 0)",
        "and undoes it; the table is generated from `seeded/RESULTS.tsv` by `tools_design_table.py`. *deductive* = a named obligation of the",
@@ -43,6 +43,9 @@ for i in ids:
     what = ", ".join(short(n, 90) for n in names[:3]) or short(caught, 160)
     out.append(f"| {i} | {short(note, 150)} | {verdict} | {'/'.join(kinds) or '-'}: {what} |")
 out += ["", f"Caught: {len([i for i in ids if rows.get(i) and rows[i][1] == 'rc=1'])} of {len(ids)}." + (f" Missed: {', '.join(missed)} (discussed below)." if missed else "")]
+misses_md = os.path.join(HERE, "seeded", "MISSES.md")
+if os.path.exists(misses_md):
+    out += ["", open(misses_md).read().rstrip()]
 text = "\n".join(out).replace("__N__", str(len(ids)))
 p = os.path.join(HERE, "DESIGN.md")
 s = open(p).read()
